@@ -7,7 +7,7 @@ CONSTANTS
   Spices = {"frag", "glue", "look"}
   Deviations = {}
   KnownDevs = {"BlankCommentPadded", "KeywordSwallowsComment"}
-  EmitEvery = 400
+  EmitEvery = 61
   EmitPhase = 0
 INIT PlaceInit
 NEXT PlaceNext
